@@ -351,6 +351,9 @@ def model_constants(rng, idx: int, module: str, with_inf: bool = False, with_nul
             values = [base_pool[0]]
         rng.shuffle(values)
         sets.append(mmg.ConstantSet(name, items_type, values, superset_of=[x.name for x in subs]))
+    if idx == 0:
+        # corpus: a literal with str.splitlines() boundaries (textwrap.indent used to split it)
+        sets.append(mmg.ConstantSet("K_line_separators", "str", ["\u2028 x", "y\u2029 z", "plain"]))
     mm.constants = consts + sets
     # the generators need at least one class (an empty class list crashes them: C02's topic)
     mm.classes = [mmg.Class("Anchor_thing", properties=[mmg.Property("label", mmg.TPrim("str"))])]
